@@ -78,3 +78,20 @@ void h_rwlock_null(void)
     VF_ASSERT(ABT_rwlock_rdlock(ABT_RWLOCK_NULL) == ABT_ERR_INV_RWLOCK && ABT_rwlock_wrlock(ABT_RWLOCK_NULL) == ABT_ERR_INV_RWLOCK && ABT_rwlock_unlock(ABT_RWLOCK_NULL) == ABT_ERR_INV_RWLOCK, "NULL handle rejected");
     VF_REACH("null");
 }
+
+/* a fresh lock is free: the monitor invariant holds from the first moment and nobody is inside (ABTU_malloc does not
+ * zero memory: CBMC's malloc hands out arbitrary contents) */
+void h_rwlock_create(void)
+{
+    ABT_rwlock h = (ABT_rwlock)0x55; vf_lock_held = 0; VF_ASSUME(vf_acquires < 100 && vf_releases < 100 && vf_clock < 100);
+    int r = ABT_rwlock_create(&h);
+    if (r != ABT_SUCCESS) { VF_ASSERT(r == ABT_ERR_MEM && h == ABT_RWLOCK_NULL, "failed creation: ABT_ERR_MEM and the NULL handle (1.x API)"); VF_REACH("create failed"); return; }
+    ABTI_rwlock *p = ABTI_rwlock_get_ptr(h);
+    VF_ASSERT(p != NULL && p->reader_count == 0 && p->write_flag == 0, "a fresh lock has no reader and no writer inside (otherwise the first locker waits for a holder that does not exist)");
+    VF_ASSERT(p->mutex.lock.val.val == 0 && p->mutex.waiter_lock.val.val == 0 && p->mutex.waitlist.p_head == NULL && p->mutex.waitlist.p_tail == NULL && p->mutex.attrs == ABTI_MUTEX_ATTR_NONE, "its internal mutex is free, with no waiter");
+    VF_ASSERT(p->cond.lock.val.val == 0 && p->cond.p_waiter_mutex == NULL && p->cond.waitlist.p_head == NULL && p->cond.waitlist.p_tail == NULL, "its condition variable has no waiter and no associated mutex yet");
+    VF_ASSERT(sizeof(p->reader_count) >= sizeof(size_t), "the count of readers inside is as wide as size_t: it cannot wrap to 0 while readers are inside (each read hold needs a live caller)");
+    r = ABT_rwlock_free(&h);
+    VF_ASSERT(r == ABT_SUCCESS && h == ABT_RWLOCK_NULL, "free: released (CBMC: exactly once, no leak), handle reset");
+    VF_REACH("create/free");
+}
